@@ -551,6 +551,9 @@ func c12R3(p *engine.Prog, r *engine.Report, consts map[int64]string, vtab map[i
 		}
 		work := []*ssa.Function{vt}
 		preValidation[vt] = true
+		for _, v := range vtab {
+			preValidation[v] = true // the validator is what establishes presence: its own uses need the local test
+		}
 		for len(work) > 0 {
 			f := work[len(work)-1]
 			work = work[:len(work)-1]
@@ -567,7 +570,7 @@ func c12R3(p *engine.Prog, r *engine.Report, consts map[int64]string, vtab map[i
 		r.Und("C12-R3", "ValidateTx", "", "blockchain/validation.ValidateTx not found")
 	}
 	n := 0
-	scan := []string{"blockchain", "vm", "vm/wasm", "vm/env", "blockchain/fee", "core/ceremony", "core/flip", "core/mempool"}
+	scan := []string{"blockchain", "blockchain/validation", "vm", "vm/wasm", "vm/env", "blockchain/fee", "core/ceremony", "core/flip", "core/mempool"}
 	for _, pkg := range scan {
 		for _, f := range funcsOfPkg(p, pkg) {
 			for _, c := range engine.Calls(f) {
